@@ -5,7 +5,8 @@ rows = []
 for p in sorted(glob.glob("/verif/seeded/*/meta.json")):
     m = json.load(open(p))
     d = os.path.basename(os.path.dirname(p))
-    rows.append("| %s | %s | %s | %s | %s |" % (d, m["property"], "yes" if m["confirmed"] else "NO", ", ".join(m["caught_by"]) or "**none**",
+    conf = "yes" if m["confirmed"] else ("superseded" if m.get("superseded") else "NO")
+    rows.append("| %s | %s | %s | %s | %s |" % (d, m["property"], conf, ", ".join(m["caught_by"]) or ("-" if m.get("superseded") else "**none**"),
                                           m.get("needs_to_manifest", "").replace("|", "\\|")))
 open("/verif/seeded/README.md", "w").write("""# Independently written property-breaking changes
 
@@ -13,7 +14,8 @@ Each directory holds `patch.diff` (applies to /repo's HEAD), the author's demons
 (what it needs in order to manifest, what was run to confirm it, which checks were run against it and which
 reported a VIOLATION). Written by sub-agents that saw only the property text and a scratch worktree - nothing
 from /verif. Confirmed = demo passes on the clean tree, the repository's 719 tests still pass with the change,
-demo fails with the change. `history` in meta.json records checks that missed a change before being strengthened.
+demo fails with the change. `history` in meta.json records checks that missed a change before being strengthened. `superseded` = a later `fix:` commit in /repo
+removed the code path the change relied on, so its demonstration no longer fails at HEAD (kept for the record).
 
 | directory | property | confirmed | caught by (quick tier) | needs, in order to manifest |
 |---|---|---|---|---|
